@@ -89,6 +89,10 @@ def make_data(desc):
         y = eta + 0.3 * noise
         if link == 'log':
             y = np.exp(0.6 * eta) + 0.05 * np.abs(noise) + 0.2
+        else:
+            # identity link: the response may be recorded in any unit (capacitances in farad ~ 1e-12); the relative
+            # coefficient change that stops the loop must not depend on it
+            y = y * desc.get('unit', 1.0)
     elif dist == 'binomial':
         p = 1 / (1 + np.exp(-1.5 * eta))
         y = (u < p).astype(float)
@@ -477,7 +481,7 @@ def run_config(desc, cfg, rtol=1e-9):
             try:
                 mm = gA._modelmat(X)
                 mu_x = np_mu(link, np.asarray(mm.dot(c_in[i].reshape(-1, 1))).ravel())[mask]
-                if mu_p.shape != mu_x.shape or not np.allclose(mu_p, mu_x, rtol=1e-8, atol=1e-11):
+                if mu_p.shape != mu_x.shape or not np.allclose(mu_p, mu_x, rtol=1e-8, atol=1e-11 * min(1.0, float(np.abs(mu_x).max()) if np.size(mu_x) else 1.0)):
                     fail('loop-start mu is not link^-1(B c) of the entering coefficients', it=i)
             except AttributeError:
                 pass
@@ -822,6 +826,8 @@ def descs_for(ctx):
             for terms in TERMS:
                 wm = rng.choice(WEIGHTS) if rep or terms != 'lin' else 'none'
                 descs.append(dict(cls=lab, terms=terms, n=rng.randint(30, 80), weights=wm, gseed='%d-%d' % (ctx.seed, g)))
+                if CLASSES[lab][1] == 'normal' and CLASSES[lab][2] == 'identity':
+                    descs[-1]['unit'] = [1.0, 1e-12, 1.0, 1e-6, 1e6, 1e-9][g % 6]
                 g += 1
     return descs
 
